@@ -286,8 +286,8 @@ pub fn property() -> Property {
         pre: Some(pre),
         post: None,
         parts: vec![
-            Box::new(Part { name: "cfg", driver: Driver::Gen(cfg_strategy, 240_000, 960_000), prop: prop_cfg, exhaustive: false }),
-            Box::new(Part { name: "exl", driver: Driver::Gen(exl_strategy, 240_000, 960_000), prop: prop_exl, exhaustive: false }),
+            Box::new(Part { name: "cfg", driver: Driver::Gen(cfg_strategy, 240_000, 3_840_000), prop: prop_cfg, exhaustive: false }),
+            Box::new(Part { name: "exl", driver: Driver::Gen(exl_strategy, 240_000, 3_840_000), prop: prop_exl, exhaustive: false }),
         ],
     }
 }
